@@ -61,3 +61,60 @@ Theorem C12_failures_bound_is_reached :
   failed_scenarios (trace s) = 1 /\ limit s = true.
 Proof. exact failures_bound_is_reached. Qed.
 Print Assumptions C12_failures_bound_is_reached.
+
+(* ---- unique inputs (ModelU_C12: lookup and store are separate steps, any number of workers) ---- *)
+From Verif Require Import C12.ModelU_C12 C12.ProofsU_C12.
+
+(* With unique inputs the same request is never sent twice: for all outcomes, all case sequences in which every operation
+   belongs to one worker, and all interleavings of the workers' lookups and sends. *)
+Theorem C12_unique_never_sent_twice : forall out owner scripts sched,
+  owned owner scripts -> NoDup (u_sent (urun out sched (uinit scripts))).
+Proof. exact unique_never_sent_twice. Qed.
+Print Assumptions C12_unique_never_sent_twice.
+
+(* One worker: for every sequence of generated cases. *)
+Theorem C12_unique_one_worker : forall out script sched,
+  NoDup (u_sent (urun out sched (uinit (fun w => match w with 0 => script | _ => [] end)))).
+Proof. exact unique_one_worker. Qed.
+Print Assumptions C12_unique_one_worker.
+
+(* The deduplication loses nothing: when the workers are done every generated case was sent. *)
+Theorem C12_unique_nothing_lost : forall out scripts sched n,
+  let s := urun out sched (uinit scripts) in
+  quiescent n s -> forall w k, w < n -> In k (scripts w) -> In k (u_sent s).
+Proof. exact unique_nothing_lost. Qed.
+Print Assumptions C12_unique_nothing_lost.
+
+(* The hypothesis is needed: the cache alone does not serialise two workers that are given the same case. *)
+Theorem C12_unique_shared_case_refuted : exists out scripts sched,
+  ~ NoDup (u_sent (urun out sched (uinit scripts))).
+Proof.
+  exists (fun _ => OOk), (scripts_of [[k7]; [k7]]), [ULookup 0; ULookup 1; USend 0; USend 1].
+  rewrite unique_refuted_shared_case. intros H. inversion H as [|x l Hn _]; subst. apply Hn. left; reflexivity.
+Qed.
+Print Assumptions C12_unique_shared_case_refuted.
+
+(* ---- rate limit (ModelR_C12: the sliding-window guard schemathesis relies on) ---- *)
+From Coq Require Import ZArith.
+From Verif Require Import C12.ModelR_C12 C12.ProofsR_C12.
+
+(* Every window of one interval holds at most `limit` granted requests, whatever the times at which the workers ask. *)
+Theorem C12_rate_within_limit : forall limit interval ts a,
+  countp (in_window interval a) (attempts limit interval ts) <= limit.
+Proof. exact rate_within_limit. Qed.
+Print Assumptions C12_rate_within_limit.
+
+(* A request reaches the API at most `jitter` after its grant: an API-side window holds at most the grants of the window
+   extended by the jitter (the "scheduling jitter at window boundaries" of the property text). *)
+Theorem C12_rate_seen_window_bound : forall interval jitter a pairs,
+  (0 <= jitter)%Z ->
+  (forall g s, In (g, s) pairs -> (g <= s <= g + jitter)%Z) ->
+  countp (in_window interval a) (map snd pairs) <=
+  countp (fun h => (a - jitter <=? h)%Z && (h <? a + interval)%Z) (map fst pairs).
+Proof. exact seen_window_bound. Qed.
+Print Assumptions C12_rate_seen_window_bound.
+
+Theorem C12_rate_bound_is_reached :
+  countp (in_window 1000 0) (attempts 3 1000 [0; 200; 400; 600; 800; 1000; 1200]%Z) = 3.
+Proof. exact (proj2 rate_example). Qed.
+Print Assumptions C12_rate_bound_is_reached.
